@@ -937,20 +937,17 @@ func (s *SecureChannel) scheduleExpiration(instance *channelInstance) {
 	s.instancesMu.Lock()
 	defer s.instancesMu.Unlock()
 
-	oldInstances := s.instances[instance.securityTokenID]
+	// the instances are kept per secure channel id
+	oldInstances := s.instances[instance.secureChannelID]
 
-	s.instances[instance.securityTokenID] = []*channelInstance{}
+	s.instances[instance.secureChannelID] = []*channelInstance{}
 
 	for _, oldInstance := range oldInstances {
-		if oldInstance.secureChannelID != instance.secureChannelID {
-			// something has gone horribly wrong!
-			debug.Printf("uasc %d: secureChannelID mismatch during scheduleExpiration!", s.c.ID())
+		if oldInstance == instance {
+			continue // the expired token
 		}
-		if oldInstance.securityTokenID == instance.securityTokenID {
-			continue
-		}
-		s.instances[instance.securityTokenID] = append(
-			s.instances[instance.securityTokenID],
+		s.instances[instance.secureChannelID] = append(
+			s.instances[instance.secureChannelID],
 			oldInstance,
 		)
 	}
